@@ -64,6 +64,10 @@ CLAIMS = {
   text="(A) MC_Walker: FailureTransparent over every DAG shape and failing node in the implementation-shaped walker machine (the configuration without the clean-up yields the counterexample of the repaired defect). (B/C) TLC enumerates fault histories (all sequences of length <= 3 over 5 good + 16 failing calls with >= 1 failing call, simulated length 7); each runs on environment A, the history minus the failing calls on twin B, followed by a 20-probe suite incl. reused parser / substituter / simplifier objects; TLC validates that A and B answer every probe identically (up to AC order / fresh names).",
   note="failing-call classes of harness/envcalls.py: ill-typed construction, sort-breaking substitution at 5 depths, exception inside a walk, unsupported node/operator, undefined symbol, malformed SMT-LIB, HR syntax error",
   tech=TECH + "TLC-enumerated fault histories replayed on twin environments, probe results validated by TLC", ref="DESIGN.md 3 C15"),
+ "C18": dict(
+  text="(A) TLC model-checks the implementation-shaped optimizer (OptSearchInterval bounds/pivot arithmetic, _optimize linear and binary search, min/max, Int / unsigned / signed BV objectives, lexicographic wrapper, Pareto loop) over a nondeterministic satisfiability oracle: every Sat subset of the model space, every objective valuation, every sequence of answers; termination (liveness, weak fairness), result = optimum / lexicographic optimum / exact Pareto front, None iff unsat, cuts representable, stack restored; the model of the pinned lexicographic wrapper must leak a level (vacuity guard). (B/C) the real SUA and incremental mixins run on a brute-force oracle over 8 finite-domain systems x goal kinds (incl. MinMax/MaxMin/MaxSMT) x {linear,binary} x adversarial oracle policies; TLC validates every oracle answer with Eval and the final outcome against the optimum it computes itself, plus the assertion stack before/after.",
+  note="real-valued bisection excluded as in the property; oracle answers re-validated by TLC; routines are run under a 20 s limit (non-termination is reported as a violation)",
+  tech=TECH + "design model checking over a nondeterministic oracle + real optimizer runs on a brute-force oracle validated by TLC", ref="DESIGN.md 3 C18"),
 }
 NA_REASON = "check under construction in this round (planned with the same TLA+/TLC technique, see DESIGN.md)"
 
